@@ -86,9 +86,29 @@ def gen_case(rng):
     return {"lines": lines, "final_nl": rng.random() < 0.8}
 
 
+def systematic_cases(rng):
+    """Every keyword of the vocabulary in every left context and in every right context (delimiters, operators, a closed literal, the line boundary)."""
+    cases = []
+    for w, _ in vocabulary():
+        if w in OPS or w in DELIMS:
+            continue
+        form = rng.choice([w, w, w.lower(), w.capitalize()])
+        left = []
+        for c in DELIMS + OPS:
+            left += [[3, c], [0, form], [3, " "], [1, "A"]]
+        left += [[2, "s", 1], [0, form]]
+        right = []
+        for c in DELIMS + OPS:
+            right += [[3, " "], [0, form], [3, c], [1, "B1"]]
+        right += [[3, " "], [0, form], [2, "t", 1]]
+        cases.append({"lines": [{"num": 10, "lx": [[0, form]], "sep": 1}, {"num": 20, "lx": left, "sep": 1}, {"num": 30, "lx": right, "sep": 1}], "final_nl": True})
+    return cases
+
+
 def gen_cases(rng, tier):
     n = scale(tier, 600, 20000)
-    return [gen_case(rng) for _ in range(n)], {"random": n}
+    sysc = systematic_cases(rng)
+    return sysc + [gen_case(rng) for _ in range(n)], {"random": n, "every keyword x every left/right context": len(sysc)}
 
 
 def text_of(case):
